@@ -25,7 +25,7 @@ RULE = ("scenario = (supported list, preferred, api) x server answer kind x answ
         "malformed, error, silence, boundary timing, distractor or duplicate)")
 PROBES = ["answer_exactly_at_timeout", "counter_proposal_accepted", "mismatch_rejected", "malformed_answer", "error_answer",
           "silence", "duplicate_answer", "preferred_not_in_list", "invented_version_accepted"]
-TIERS = {"quick": {"runs": 5000, "wall": 40.0}, "thorough": {"runs": 300000, "wall": 540.0}}
+TIERS = {"quick": {"runs": 30000, "wall": 45.0}, "thorough": {"runs": 3000000, "wall": 560.0}}
 ASSUMPTIONS = [
     "JSON-RPC error answers and malformed results may raise any exception; a well-formed answer with a version outside the list must raise VersionMismatchError; silence must raise TimeoutError",
     "batching mode is checked against an independent date compare only for well-formed dddd-dd-dd versions",
